@@ -899,4 +899,378 @@ theorem itemsOf_obs (o : Opts) (args : List Arg) (hw : WF args) :
   exact (((((fileContent_obs _ _ _ _ hE).append (fileContent_obs _ _ _ _ hE)).append
     (List.Perm.refl _)).append (List.Perm.refl _)).append (List.Perm.refl _))
 
+/-! ## the closed form depends on the artifact multiset only -/
+
+/-- an artifact that `handle_file` does not ignore -/
+def Art.relevant (a : Art) : Bool := decide (a.cls ≠ .ignored)
+
+theorem cidsOf_filter_relevant (c : Cls) (hc : c ≠ .ignored) (as : List Art) :
+    cidsOf c (as.filter Art.relevant) = cidsOf c as := by
+  unfold cidsOf
+  rw [List.filter_filter]
+  congr 1
+  apply List.filter_congr
+  intro a _
+  unfold Art.relevant
+  by_cases h : a.cls = c
+  · simp [h, hc]
+  · simp [h]
+
+theorem gcnoKeyCid_filter_relevant (as : List Art) :
+    (as.filter Art.relevant).filterMap gcnoKeyCid = as.filterMap gcnoKeyCid := by
+  induction as with
+  | nil => rfl
+  | cons a as ih =>
+    by_cases h : a.relevant = true
+    · simp only [List.filter_cons, h, if_true, List.filterMap_cons, ih]
+    · have hc : a.cls = .ignored := by
+        unfold Art.relevant at h; simpa using h
+      simp [h, ih, gcnoKeyCid, hc]
+
+theorem closed_filter_relevant (o : Opts) (as : List Art) :
+    closed o (as.filter Art.relevant) = closed o as := by
+  unfold closed profObs gcnoTable
+  rw [gcnoKeyCid_filter_relevant]
+  simp only [cidsOf_filter_relevant _ (by simp : Cls.info ≠ .ignored),
+    cidsOf_filter_relevant _ (by simp : Cls.xml ≠ .ignored),
+    cidsOf_filter_relevant _ (by simp : Cls.profdata ≠ .ignored),
+    cidsOf_filter_relevant _ (by simp : Cls.profraw ≠ .ignored)]
+  congr 1
+  apply flatMap_congr_mem
+  intro p _
+  rw [cidsOf_filter_relevant _ (by simp)]
+
+theorem cidsOf_perm (c : Cls) {as bs : List Art} (p : as.Perm bs) :
+    (cidsOf c as).Perm (cidsOf c bs) := (p.filter _).map _
+
+theorem profObs_perm (fmt : Fmt) (c : Cls) {as bs : List Art} (p : as.Perm bs) :
+    profObs fmt c as = profObs fmt c bs := by
+  unfold profObs
+  rw [(cidsOf_perm c p).isEmpty_eq, sortNat_perm (cidsOf_perm c p)]
+
+theorem gcnoObs_perm (io : Bool) (k : Name × Bool) (g : Nat) {ds es : List Nat} (p : ds.Perm es) :
+    (gcnoObs io k g ds).Perm (gcnoObs io k g es) := by
+  unfold gcnoObs
+  rw [p.isEmpty_eq, sortNat_perm p]
+  split
+  · exact .refl _
+  · split
+    · exact .refl _
+    · exact p.map _
+
+theorem closed_perm (o : Opts) {as bs : List Art} (p : as.Perm bs) (hc : GcnoConsistent as) :
+    (closed o as).Perm (closed o bs) := by
+  unfold closed
+  rw [profObs_perm _ _ p, profObs_perm _ _ p]
+  refine ((((((cidsOf_perm _ p).map _).append ((cidsOf_perm _ p).map _)).append (.refl _)).append
+    (.refl _)).append ?_)
+  have ht : (gcnoTable as).Perm (gcnoTable bs) :=
+    setAll_perm_of_consistent (p.filterMap gcnoKeyCid) hc
+  refine (ht.flatMap_right _).trans ?_
+  apply flatMap_perm_congr
+  intro x _
+  exact gcnoObs_perm _ _ _ (cidsOf_perm _ p)
+
+theorem any_usable_filter_relevant (as : List Art) :
+    (as.filter Art.relevant).any Art.usable = as.any Art.usable := by
+  induction as with
+  | nil => rfl
+  | cons a as ih =>
+    by_cases h : a.relevant = true
+    · simp [h, ih]
+    · have hc : a.cls = .ignored := by
+        unfold Art.relevant at h; simpa using h
+      have : a.usable = false := by unfold Art.usable; rw [hc]
+      simp [h, ih, this]
+
+/-- equivalence of outcomes: the same kind of panic, or item multisets that agree on everything the
+consumers see (archive names and the order of gcda buffers aside) -/
+def OutcomeEquiv : Outcome → Outcome → Prop
+  | .ok i₁ _, .ok i₂ _ => (i₁.map Item.obs).Perm (i₂.map Item.obs)
+  | .panicNoInput, .panicNoInput => True
+  | .panicBadArg, .panicBadArg => True
+  | _, _ => False
+
+theorem run_equiv_of_arts (o : Opts) (args₁ args₂ : List Arg) (w₁ : WF args₁) (w₂ : WF args₂)
+    (hb : args₁.any Arg.bad = args₂.any Arg.bad)
+    (p : ((arts o.isLlvm args₁).filter Art.relevant).Perm ((arts o.isLlvm args₂).filter Art.relevant))
+    (hc : GcnoConsistent (arts o.isLlvm args₁)) :
+    OutcomeEquiv (run o args₁) (run o args₂) := by
+  rw [run_cases, run_cases, hb]
+  split
+  · trivial
+  · have hu : (arts o.isLlvm args₁).any Art.usable = (arts o.isLlvm args₂).any Art.usable := by
+      rw [← any_usable_filter_relevant (arts o.isLlvm args₁),
+        ← any_usable_filter_relevant (arts o.isLlvm args₂)]
+      exact p.any_eq
+    rw [hu]
+    split
+    · show ((itemsOf o args₁).map Item.obs).Perm ((itemsOf o args₂).map Item.obs)
+      have hc' : GcnoConsistent ((arts o.isLlvm args₁).filter Art.relevant) := by
+        unfold GcnoConsistent at *; rw [gcnoKeyCid_filter_relevant]; exact hc
+      have h := closed_perm o p hc'
+      rw [closed_filter_relevant, closed_filter_relevant] at h
+      exact (itemsOf_obs o args₁ w₁).trans (h.trans (itemsOf_obs o args₂ w₂).symm)
+    · trivial
+
+/-! ## argument order -/
+
+def fileArt (L : Bool) (f : File) : Art := ⟨classify L f, f.cid⟩
+
+theorem artsOfE_entries (L : Bool) (archs : List Arch) :
+    artsOfE L (entries archs) = archs.flatMap fun a => a.files.map (fileArt L) := by
+  unfold artsOfE entries
+  rw [List.map_flatMap]
+  apply flatMap_congr_mem
+  intro a _
+  rw [List.map_map]; rfl
+
+theorem arts_split (L : Bool) (args : List Arg) :
+    arts L args = ((args.filterMap Arg.toArch?).flatMap fun a => a.files.map (fileArt L))
+      ++ (args.filterMap Arg.plainFile?).map (fileArt L) := by
+  rw [arts_eq, artsOfE_entries]
+  unfold archives
+  rw [List.flatMap_append]
+  congr 1
+  cases h : args.filterMap Arg.plainFile? with
+  | nil => rfl
+  | cons f fs => simp
+
+theorem arts_perm (L : Bool) {args₁ args₂ : List Arg} (p : args₁.Perm args₂) :
+    (arts L args₁).Perm (arts L args₂) := by
+  rw [arts_split, arts_split]
+  exact ((p.filterMap _).flatMap_right _).append ((p.filterMap _).map _)
+
+theorem mem_archives {args : List Arg} {a : Arch} (h : a ∈ archives args) :
+    a ∈ args.filterMap Arg.toArch? ∨
+      (a = ⟨.plain, .plain, args.filterMap Arg.plainFile?⟩ ∧ args.filterMap Arg.plainFile? ≠ []) := by
+  unfold archives at h
+  rcases List.mem_append.1 h with h | h
+  · exact Or.inl h
+  · right
+    cases hp : args.filterMap Arg.plainFile? with
+    | nil => simp [hp] at h
+    | cons f fs => simp [hp] at h; exact ⟨h, by simp⟩
+
+theorem WF_perm {args₁ args₂ : List Arg} (p : args₁.Perm args₂) (w : WF args₁) : WF args₂ := by
+  intro a ha
+  rcases mem_archives ha with h | ⟨rfl, hne⟩
+  · apply w a
+    unfold archives
+    exact List.mem_append_left _ ((p.filterMap _).mem_iff.2 h)
+  · have pp := p.filterMap Arg.plainFile?
+    have hne₁ : args₁.filterMap Arg.plainFile? ≠ [] := fun h => hne (by rw [h] at pp; exact pp.symm.eq_nil)
+    have hin : (⟨.plain, .plain, args₁.filterMap Arg.plainFile?⟩ : Arch) ∈ archives args₁ := by
+      unfold archives
+      apply List.mem_append_right
+      cases hp : args₁.filterMap Arg.plainFile? with
+      | nil => exact absurd hp hne₁
+      | cons f fs => simp
+    intro f hf g hg hfg
+    exact w _ hin f (pp.mem_iff.2 hf) g (pp.mem_iff.2 hg) hfg
+
+/-! ## path mapping candidates -/
+
+theorem mem_lmaps {L : Bool} {E : List (Arch × File)} {n : Name} {a : Arch}
+    (h : (n, a) ∈ setAll (selCls L .linkedMap E) []) :
+    ∃ f, (a, f) ∈ E ∧ classify L f = .linkedMap ∧ f.path = n := by
+  rcases mem_setAll h with h | h
+  · unfold selCls at h
+    obtain ⟨p, hp, he⟩ := List.mem_map.1 h
+    have hp' := List.mem_filter.1 hp
+    cases he
+    exact ⟨p.2, hp'.1, by simpa using hp'.2, rfl⟩
+  · cases h
+
+theorem cands_sub (o : Opts) (args : List Arg) (hw : WF args) :
+    ∀ c ∈ candsOf o args, c ∈ cidsOf .linkedMap (arts o.isLlvm args) := by
+  have hE : EntriesWF (entries (archives args)) := entriesWF_of hw
+  intro c hc
+  unfold candsOf mapCands at hc
+  rw [explore_eq, explore_lmaps] at hc
+  obtain ⟨p, hp, hr⟩ := List.mem_filterMap.1 hc
+  obtain ⟨f, hf, hcl, hpath⟩ := mem_lmaps (n := p.1) (a := p.2) hp
+  rw [← hpath, read_of_mem (hE _ hf).2 (hE _ hf).1] at hr
+  cases hr
+  rw [arts_eq, cidsOf_artsOfE]
+  exact List.mem_map.2 ⟨(p.2, f), List.mem_filter.2 ⟨hf, by simpa using hcl⟩, rfl⟩
+
+theorem cands_nil_iff (o : Opts) (args : List Arg) (hw : WF args) :
+    candsOf o args = [] ↔ cidsOf .linkedMap (arts o.isLlvm args) = [] := by
+  have hE : EntriesWF (entries (archives args)) := entriesWF_of hw
+  constructor
+  · intro h
+    rw [arts_eq, ← selCls_eq_nil]
+    unfold candsOf mapCands at h
+    rw [explore_eq, explore_lmaps] at h
+    cases hs : setAll (selCls o.isLlvm .linkedMap (entries (archives args))) [] with
+    | nil => exact ((setAll_eq_nil _ _).1 hs).2
+    | cons p ps =>
+      exfalso
+      have hp : p ∈ setAll (selCls o.isLlvm .linkedMap (entries (archives args))) [] := by
+        rw [hs]; exact List.mem_cons_self
+      obtain ⟨f, hf, _, hpath⟩ := mem_lmaps (n := p.1) (a := p.2) hp
+      have hr : p.2.read p.1 = some f.cid := by
+        rw [← hpath]; exact read_of_mem (hE _ hf).2 (hE _ hf).1
+      have := List.filterMap_eq_nil_iff.1 h p hp
+      rw [hr] at this; cases this
+  · intro h
+    rw [arts_eq, ← selCls_eq_nil] at h
+    unfold candsOf mapCands
+    rw [explore_eq, explore_lmaps, h]
+    rfl
+
+/-! ## reading the closed form -/
+
+/-- the gcno stem an observable item is about -/
+def Obs.stem? : Obs → Option Name
+  | .gcnoPath s _ _ => some s
+  | .gcnoBuf s _ _ => some s
+  | _ => none
+
+theorem gcnoKeyCid_some {a : Art} {k : Name × Bool} {g : Nat} (h : gcnoKeyCid a = some (k, g)) :
+    a.cls = .gcno k.1 k.2 ∧ a.cid = g := by
+  unfold gcnoKeyCid at h
+  split at h
+  · rename_i s l hc; cases h; exact ⟨hc, rfl⟩
+  · cases h
+
+theorem mem_gcnoTable {as : List Art} {k : Name × Bool} {g : Nat} (h : (k, g) ∈ gcnoTable as) :
+    ∃ a ∈ as, a.cls = .gcno k.1 k.2 ∧ a.cid = g := by
+  rw [gcnoTable_eq] at h
+  rcases mem_setAll h with h | h
+  · obtain ⟨a, ha, hk⟩ := List.mem_filterMap.1 h
+    exact ⟨a, ha, gcnoKeyCid_some hk⟩
+  · cases h
+
+theorem key_in_gcnoTable {as : List Art} {a : Art} {s : Name} {l : Bool} (ha : a ∈ as)
+    (hc : a.cls = .gcno s l) : ∃ g, ((s, l), g) ∈ gcnoTable as := by
+  rw [gcnoTable_eq]
+  apply exists_mem_of_mem_keys
+  rw [mem_keys_setAll]
+  right
+  exact ⟨((s, l), a.cid), List.mem_filterMap.2 ⟨a, ha, by simp [gcnoKeyCid, hc]⟩, rfl⟩
+
+theorem gcnoTable_nodupKeys (as : List Art) : NodupKeys (gcnoTable as) := by
+  rw [gcnoTable_eq]; exact nodupKeys_setAll _ _ (by simp [NodupKeys, keys])
+
+theorem gcnoObs_stem {io : Bool} {k : Name × Bool} {g : Nat} {ds : List Nat} {x : Obs}
+    (hx : x ∈ gcnoObs io k g ds) : x.stem? = some k.1 := by
+  unfold gcnoObs at hx
+  repeat' split at hx
+  all_goals first
+    | (simp only [List.mem_singleton] at hx; subst hx; rfl)
+    | (obtain ⟨d, _, rfl⟩ := List.mem_map.1 hx; rfl)
+    | cases hx
+
+theorem mem_closed_of_gcno {o : Opts} {as : List Art} {p : (Name × Bool) × Nat} {x : Obs}
+    (hp : p ∈ gcnoTable as)
+    (hx : x ∈ gcnoObs o.ignoreOrphan p.1 p.2 (cidsOf (.gcda p.1.1) as)) : x ∈ closed o as := by
+  unfold closed
+  exact List.mem_append_right _ (List.mem_flatMap.2 ⟨p, hp, hx⟩)
+
+theorem stem_mem_closed {o : Opts} {as : List Art} {x : Obs} {s : Name} (hx : x ∈ closed o as)
+    (hs : x.stem? = some s) :
+    ∃ p ∈ gcnoTable as, p.1.1 = s ∧
+      x ∈ gcnoObs o.ignoreOrphan p.1 p.2 (cidsOf (.gcda p.1.1) as) := by
+  unfold closed profObs at hx
+  simp only [List.mem_append] at hx
+  rcases hx with (((hx | hx) | hx) | hx) | hx
+  · obtain ⟨c, _, rfl⟩ := List.mem_map.1 hx; cases hs
+  · obtain ⟨c, _, rfl⟩ := List.mem_map.1 hx; cases hs
+  · split at hx
+    · cases hx
+    · simp only [List.mem_singleton] at hx; subst hx; cases hs
+  · split at hx
+    · cases hx
+    · simp only [List.mem_singleton] at hx; subst hx; cases hs
+  · obtain ⟨p, hp, hxp⟩ := List.mem_flatMap.1 hx
+    have := gcnoObs_stem hxp
+    rw [hs] at this
+    exact ⟨p, hp, (Option.some.inj this).symm, hxp⟩
+
+/-- last writer wins: the table holds, for a key, the content of the last gcno with that key -/
+theorem gcnoTable_last (pre post : List Art) (a : Art) (k : Name × Bool) (g : Nat)
+    (ha : gcnoKeyCid a = some (k, g)) (hpost : ∀ b ∈ post, ∀ g', gcnoKeyCid b ≠ some (k, g')) :
+    get? (gcnoTable (pre ++ a :: post)) k = some g := by
+  rw [gcnoTable_eq, List.filterMap_append, List.filterMap_cons, ha]
+  unfold setAll
+  rw [List.foldl_append, List.foldl_cons]
+  generalize List.foldl (fun m x => AList.set m x.1 x.2) [] (List.filterMap gcnoKeyCid pre) = m₀
+  have h0 : get? (AList.set m₀ k g) k = some g := by rw [get?_set]; simp
+  generalize AList.set m₀ k g = m at h0
+  induction post generalizing m with
+  | nil => exact h0
+  | cons b post ih =>
+    rw [List.filterMap_cons]
+    cases hb : gcnoKeyCid b with
+    | none => exact ih (fun c hc => hpost c (List.mem_cons_of_mem _ hc)) m h0
+    | some kg =>
+      rw [List.foldl_cons]
+      apply ih (fun c hc => hpost c (List.mem_cons_of_mem _ hc))
+      rw [get?_set]
+      have : ¬ kg.1 = k := by
+        intro e
+        exact hpost b List.mem_cons_self kg.2 (by rw [hb, ← e])
+      simp [this, h0]
+
+theorem mem_of_get? {κ β : Type} [DecidableEq κ] {m : List (κ × β)} {k : κ} {v : β}
+    (h : get? m k = some v) : (k, v) ∈ m := by
+  induction m with
+  | nil => cases h
+  | cons p m ih =>
+    obtain ⟨k', w⟩ := p
+    rw [get?_cons] at h
+    split at h
+    · rename_i hk; cases h; subst hk; exact List.mem_cons_self
+    · exact List.mem_cons_of_mem _ (ih h)
+
+/-! ## sniffing -/
+
+theorem isInfo_iff (h : List Nat) :
+    isInfo h = true ↔ ∃ rest, h = [84, 78, 58] ++ rest ∨ h = [83, 70, 58] ++ rest := by
+  unfold isInfo
+  constructor
+  · intro hh
+    simp only [Bool.and_eq_true, decide_eq_true_eq, Bool.or_eq_true, beq_iff_eq] at hh
+    refine ⟨h.drop 3, ?_⟩
+    rcases hh.2 with e | e
+    · left; rw [← e, List.take_append_drop]
+    · right; rw [← e, List.take_append_drop]
+  · rintro ⟨rest, rfl | rfl⟩ <;> simp
+
+theorem classify_of_ext {L : Bool} {f : File} {s e : Name} (h : splitExt f.path = some (s, e)) :
+    classify L f =
+      if e = bGcno then .gcno s (L || isGcnoLlvm f.head)
+      else if e = bGcda then .gcda s
+      else if e = bProfdata then .profdata
+      else if e = bProfraw then .profraw
+      else if e = bInfo then (if isInfo f.head then .info else .ignored)
+      else if e = bXml then (if isJacoco f.head then .xml else .ignored)
+      else if e = bJson then (if baseName f.path = bLfm then .linkedMap else .ignored)
+      else .ignored := by
+  unfold classify; rw [h]
+
+/-! ## from a run to the closed form -/
+
+theorem run_ok_inv {o : Opts} {args : List Arg} {items : List Item} {maps : List Nat}
+    (h : run o args = .ok items maps) :
+    args.any Arg.bad = false ∧ (arts o.isLlvm args).any Art.usable = true ∧
+      items = itemsOf o args ∧ maps = candsOf o args := by
+  rw [run_cases] at h
+  split at h
+  · cases h
+  · rename_i hb
+    split at h
+    · rename_i hu
+      cases h
+      exact ⟨by simpa using hb, hu, rfl, rfl⟩
+    · cases h
+
+theorem obs_mem_iff {o : Opts} {args : List Arg} (hw : WF args) {items : List Item}
+    {maps : List Nat} (h : run o args = .ok items maps) (x : Obs) :
+    x ∈ items.map Item.obs ↔ x ∈ closed o (arts o.isLlvm args) := by
+  obtain ⟨_, _, rfl, _⟩ := run_ok_inv h
+  exact (itemsOf_obs o args hw).mem_iff
+
 end Grcov.Producer
